@@ -344,12 +344,20 @@ func runAG(c *Ctx) (obls []Obl) {
 			}
 			okB := bucket != "" && get("IDs") == cv+".ids" && get("First") == cv+".first" && (get("Signature") == "*("+sig+")" || get("Signature") == "*"+sig)
 			appended := false
+			var appends []*Expr
 			for _, ev := range p.Events {
-				if ev.Kind == EvStore && strings.HasSuffix(ev.Addr.String(), "&bs") && ev.Val.Op == OpBuiltin && ev.Val.Name == "append" {
-					if ev.Val.Args[1].Op == OpSlice {
-						if e, ok := p.Cells[ev.Val.Args[1].Args[0].String()+"[0]"]; ok && e.String() == bucket {
-							appended = true
-						}
+				if ev.Kind == EvStore && strings.HasSuffix(ev.Addr.String(), "&bs") {
+					appends = append(appends, ev.Val)
+				}
+			}
+			// the list may also be a plain local (not captured by the comparator): its new value flows into the loop's phi
+			for _, v := range p.StopPhis {
+				appends = append(appends, v)
+			}
+			for _, v := range appends {
+				if v != nil && v.Op == OpBuiltin && v.Name == "append" && len(v.Args) == 2 && v.Args[1].Op == OpSlice {
+					if e, ok := p.Cells[v.Args[1].Args[0].String()+"[0]"]; ok && e.String() == bucket {
+						appended = true
 					}
 				}
 			}
@@ -373,15 +381,21 @@ func runAG(c *Ctx) (obls []Obl) {
 		rn, _ := stripAddr(res.String())
 		snap := p.Cells["&"+rn+".Snapshot"]
 		bk := p.Cells["&"+rn+".Buckets"]
-		if res.Op == OpAlloc && snap != nil && snap.Op == OpParam && snap.Name == recv && bk != nil && strings.HasPrefix(bk.String(), "bs") {
+		if res.Op == OpAlloc && snap != nil && snap.Op == OpParam && snap.Name == recv && bk != nil && (strings.HasPrefix(bk.String(), "bs") || strings.Contains(bk.String(), "phi:bs")) {
 			a.ok("AG-back", "Aggregate/result", "the aggregation refers back to the snapshot it was made from and carries the collected buckets", pos)
 		} else {
 			a.bad("AG-back", "Aggregate/result", "the result is not &Aggregated{Snapshot: receiver, Buckets: collected buckets}", pos)
 		}
 		nSort := 0
 		for _, ev := range p.Events {
-			if ev.Kind == EvCall && ev.Val.Op == OpCall && ev.Val.Fn != nil && ev.Val.Fn.Pkg != nil && ev.Val.Fn.Pkg.Pkg.Path() == "sort" {
-				nSort++
+			if ev.Kind == EvCall && ev.Val.Op == OpCall && ev.Val.Fn != nil {
+				fn := ev.Val.Fn
+				if fn.Origin() != nil {
+					fn = fn.Origin()
+				}
+				if pk := calleePkg(fn); pk == "sort" || (pk == "slices" && strings.HasPrefix(fn.Name(), "Sort")) {
+					nSort++
+				}
 			}
 		}
 		if nSort != 1 {
